@@ -704,6 +704,93 @@ theorem tokenize_lossless (spec : LexerSpec) (text : Text) (ts : List Token)
         simp [values]
     all_goals (simp at h)
 
+/-- on a text without tabs every token's value is its raw text -/
+theorem lex_value_eq_raw (spec : LexerSpec) (text : Text) (ts : List Token)
+    (h : lex spec text = (ts, .ok)) (htab : '\t' ∉ text) : ∀ tk, tk ∈ ts → tk.value = tk.raw := by
+  have hr := lex_lossless spec text ts h
+  intro tk htk
+  have hraw : '\t' ∉ tk.raw := by
+    intro hin
+    apply htab
+    rw [← hr]
+    unfold raws
+    rw [List.mem_flatten]
+    exact ⟨tk.raw, List.mem_map_of_mem htk, hin⟩
+  have := lexLoop_value spec text.length [] text tk (by unfold lex at h; rw [h]; exact htk)
+  rcases this with e | e
+  · exact e
+  · rw [e]; exact expandTabsFrom_id _ _ _ hraw
+
+theorem rstripNL_append_nl (x : Text) : rstripNL (x ++ ['\n']) = rstripNL x := by
+  unfold rstripNL
+  simp
+
+theorem rstripNL_id (x : Text) (h : ∀ y, x ≠ y ++ ['\n']) : rstripNL x = x := by
+  rcases List.eq_nil_or_concat x with rfl | ⟨y, c, rfl⟩
+  · rfl
+  · have hc : c ≠ '\n' := by
+      intro e
+      subst e
+      exact h y (by simp)
+    unfold rstripNL
+    simp [hc]
+
+/-- `tokenize_lossless`, sharp form for an input text: the text of an input is `J ++ "\n"` (`input_text` joins the
+    lines with newlines and adds one); when `J` has no tab and does not itself end in a newline (the last line is
+    not empty), the concatenated values of the tokens `Input.tokenize` hands to the parser are exactly `J` -/
+theorem tokenize_lossless_input (spec : LexerSpec) (J : Text) (ts : List Token)
+    (h : tokenizeText spec (J ++ ['\n']) = (ts, .ok)) (htab : '\t' ∉ J) (hJ : ∀ y, J ≠ y ++ ['\n']) :
+    values ts = J := by
+  have htab' : '\t' ∉ J ++ ['\n'] := by
+    simp only [List.mem_append, List.mem_singleton, not_or]
+    exact ⟨htab, by decide⟩
+  unfold tokenizeText at h
+  cases hl : lex spec (J ++ ['\n']) with
+  | mk ts0 o =>
+    rw [hl] at h
+    cases o
+    case ok =>
+      dsimp only at h
+      have hv := lex_values_lossless spec _ ts0 hl htab'
+      split at h
+      · rename_i hnone
+        rw [List.getLast?_eq_none_iff] at hnone
+        subst hnone
+        simp [values] at hv
+      · rename_i last hsome
+        simp only [Prod.mk.injEq, and_true] at h
+        subst h
+        obtain ⟨ys, hys⟩ := List.getLast?_eq_some_iff.mp hsome
+        have hlast : last ∈ ts0 := by rw [hys]; simp
+        have hne : last.value ≠ [] := by
+          rw [lex_value_eq_raw spec _ ts0 hl htab' last hlast]
+          exact lex_nonempty spec _ last (by rw [hl]; exact hlast)
+        rw [hys, List.dropLast_concat]
+        rw [hys, values_append] at hv
+        have hvl : values [last] = last.value := by simp [values]
+        rw [hvl] at hv
+        rcases List.eq_nil_or_concat last.value with hnil | ⟨L', x, hL⟩
+        · exact absurd hnil hne
+        · rw [List.concat_eq_append] at hL
+          rw [hL, ← List.append_assoc] at hv
+          have hinj := List.append_inj' hv rfl
+          have hx : x = '\n' := by simpa using hinj.2
+          subst hx
+          have hL' : ∀ y, L' ≠ y ++ ['\n'] := by
+            intro y hy
+            apply hJ (values ys ++ y)
+            rw [← hinj.1, hy, List.append_assoc]
+          have hr : rstripNL last.value = L' := by
+            rw [hL, rstripNL_append_nl, rstripNL_id _ hL']
+          rw [values_append, hr, ← hinj.1]
+          congr 1
+          split
+          · rename_i he
+            simp only [List.isEmpty_iff] at he
+            simp [values, he]
+          · simp [values]
+    all_goals (simp at h)
+
 /-! ## determinism facts C12 can use -/
 
 /-- a word the NUMBER rule matched is the token NULL exactly when `fortran_float` of it is zero, NUMBER exactly
